@@ -31,7 +31,7 @@ func parseConfigFromCaddyfile(d *caddyfile.Dispenser) (*CertRevocationValidatorC
 	for d.Next() {
 		for nesting := d.Nesting(); d.NextBlock(nesting); {
 			key := d.Val()
-			validatorConfig, err, done := parseConfigEntryFromCaddyfile(d, key, certRevocationValidatorConfig)
+			validatorConfig, err, done := parseConfigEntryFromCaddyfile(d, key, &certRevocationValidatorConfig)
 			if done {
 				return validatorConfig, err
 			}
@@ -40,7 +40,7 @@ func parseConfigFromCaddyfile(d *caddyfile.Dispenser) (*CertRevocationValidatorC
 	return &certRevocationValidatorConfig, nil
 }
 
-func parseConfigEntryFromCaddyfile(d *caddyfile.Dispenser, key string, certRevocationValidatorConfig CertRevocationValidatorConfig) (*CertRevocationValidatorConfig, error, bool) {
+func parseConfigEntryFromCaddyfile(d *caddyfile.Dispenser, key string, certRevocationValidatorConfig *CertRevocationValidatorConfig) (*CertRevocationValidatorConfig, error, bool) {
 	switch key {
 	case "mode":
 		if !d.NextArg() {
@@ -83,7 +83,11 @@ func parseCaddyfileOCSPConfig(d *caddyfile.Dispenser) (*config.OCSPConfig, error
 			if !d.NextArg() {
 				return nil, d.ArgErr()
 			}
-			ocspConfig.OCSPAIAStrict = false
+			b, err := strconv.ParseBool(d.Val())
+			if err != nil {
+				return nil, d.ArgErr()
+			}
+			ocspConfig.OCSPAIAStrict = b
 		default:
 			return nil, d.Errf("unknown subdirective for the ocsp config in the revocation verifier: %s", d.Val())
 		}
@@ -94,7 +98,7 @@ func parseCaddyfileOCSPConfig(d *caddyfile.Dispenser) (*config.OCSPConfig, error
 func parseCaddyfileCRLConfig(d *caddyfile.Dispenser) (*config.CRLConfig, error) {
 	crlConfig := config.CRLConfig{}
 	for nesting := d.Nesting(); d.NextBlock(nesting); {
-		c, err, done := parseCaddyFileCrlConfigEntry(d, crlConfig)
+		c, err, done := parseCaddyFileCrlConfigEntry(d, &crlConfig)
 		if done {
 			return c, err
 		}
@@ -102,7 +106,7 @@ func parseCaddyfileCRLConfig(d *caddyfile.Dispenser) (*config.CRLConfig, error) 
 	return &crlConfig, nil
 }
 
-func parseCaddyFileCrlConfigEntry(d *caddyfile.Dispenser, crlConfig config.CRLConfig) (*config.CRLConfig, error, bool) {
+func parseCaddyFileCrlConfigEntry(d *caddyfile.Dispenser, crlConfig *config.CRLConfig) (*config.CRLConfig, error, bool) {
 	switch d.Val() {
 	case "work_dir":
 		if !d.NextArg() {
@@ -175,6 +179,8 @@ func parseCaddyfileCRLCDPConfig(d *caddyfile.Dispenser) (*config.CDPConfig, erro
 				return nil, d.ArgErr()
 			}
 			cdpConfig.CRLCDPStrict = b
+		default:
+			return nil, d.Errf("unknown subdirective for the cdp config in the revocation verifier: %s", d.Val())
 		}
 	}
 	return &cdpConfig, nil
